@@ -30,6 +30,7 @@ FOLLOWS_HELPERS = {"C04-R3": "the pending-connect branch is judged in whichever 
                    "C04-R4": "call-graph closure from the engines' connect(): a new helper on that path is part of the closure",
                    "C04-R5b": "the value of every return after the timeout close is classified by what builds it, through locals and the bodies of the functions it comes from; "
                               "an untraceable value is a refusal",
+                   "C04-R12": "is c02.r4 (C02-R4, exempt there for the same reason): pure bool predicates of the engine are expanded at the branch they decide; a guard it cannot expand is a refusal raised by the rule itself",
                    "C04-R4b": "close(sid) must queue on every path; a same-class helper that always queues counts as the queueing step"}
 NOT_DECIDED = ["'no later than timeout plus bounded slack' (timing)", "that a handshake completed (OpenSSL)", "peers that black-hole (run time)",
                "C04-R6 (every id gets a terminal event) is decided as C02-R3"]
